@@ -128,21 +128,23 @@ pub fn cmp_struct_set(o: &Obs, whole: &[Block]) -> Finding {
 // C01: the schema admits the document
 // ---------------------------------------------------------------------------------------------
 
+/// a child element is bound through its local name (the renderer's documented behaviour)
 fn binds(serde: &str, name: &str) -> bool {
-    serde == local(name) || serde == name
+    serde == local(name)
 }
 
 pub fn admits(o: &Obs, e: &Elem, parent_field: Option<&Field>, path: &str) -> Finding {
     let here = format!("{path}/{}", e.name);
     let attrs: Vec<&Field> = o.block.fields.iter().filter(|f| f.kind == Kind::Attr).collect();
     let kids: Vec<&Field> = o.block.fields.iter().filter(|f| f.kind == Kind::Child).collect();
+    // an attribute is bound through the name the preset documents: prefix removed, except for `xmlns:*`
     for a in &e.attrs {
-        if !attrs.iter().any(|f| binds(&f.serde[1..], &a.name)) {
-            return bad("attribute_unbound", &here, format!("attribute {:?} has no field bound to it", a.name));
+        if !attrs.iter().any(|f| f.serde == attr_serde(&a.name)) {
+            return bad("attribute_unbound", &here, format!("attribute {:?} has no field bound to {:?}", a.name, attr_serde(&a.name)));
         }
     }
     for f in &attrs {
-        if !f.opt && !e.attrs.iter().any(|a| binds(&f.serde[1..], &a.name)) {
+        if !f.opt && !e.attrs.iter().any(|a| f.serde == attr_serde(&a.name)) {
             return bad("required_attribute_absent", &here, format!("field {:?} is not Option but this occurrence lacks the attribute", f.serde));
         }
     }
